@@ -7,6 +7,7 @@ import Driver.Cond
 import Driver.Ins
 import Driver.Expr
 import Driver.VEq
+import Driver.Types
 /-! Line-protocol driver: one request per line on stdin, one canonical result line on stdout. -/
 open SeaQ SeaQ.Util
 
@@ -66,6 +67,7 @@ def handle (line : String) : String :=
   else if l.startsWith "ins " then Driver.Ins.run (l.drop 4).toString
   else if l.startsWith "pexpr " then Driver.Expr.run (l.drop 6).toString
   else if l.startsWith "veq " then Driver.VEq.run (l.drop 4).toString
+  else if l.startsWith "types " then Driver.Types.run (l.drop 6).toString
   else handleWords l
 
 partial def loop (hin hout : IO.FS.Stream) : IO Unit := do
